@@ -1135,7 +1135,8 @@ def optimize_cons(p0, data, model_func, pts,
         p0, bounds = bnds, args = args,
         f_eqcons = eq_constraint, f_ieqcons = ieq_constraint,
         epsilon = epsilon,
-        iter = maxiter, full_output = True,
+        iter = maxiter if maxiter is not None else 100,
+        full_output = True,
         disp = False)
     xopt, fopt, func_calls, grad_calls, warnflag = outputs
 
